@@ -1,2 +1,4 @@
 -- Root of the `NpsVerif` library: everything `lake build` must check.
 import NpsVerif.Props.C01
+import NpsVerif.Props.C02
+import NpsVerif.Props.C13
